@@ -1,7 +1,8 @@
 (* C08 for the B-tree iterator.  The iterator state is (path of child indices, key of the entry); the Go
    code re-finds the entry in its node, and the separator in every ancestor while climbing, with
    tree.search, so the statements need the tree to be ordered (bst) under a strict weak order, the
-   shape invariant (wf_shape), non-empty nodes (ne_entries) and a height within the fuel constant F. *)
+   shape invariant (wf_shape) and non-empty nodes (ne_entries).  The descent / climb fuel of the model,
+   [fuel_of r] = S (maxheight r), always suffices: no node is deeper than the height of the root. *)
 From Coq Require Import ZArith List Bool Lia Arith.
 From Gods Require Import Common.Cmp Spec.MapSpec Model.Ops Model.Iter Model.Machine.
 From Gods Require Import Model.BTree Model.BTreeIter Proofs.BTreeInd Proofs.BTreeMap Proofs.IterTreeRB.
@@ -561,9 +562,10 @@ Notation bst := (bst cmp).
 
 (* the invariants of a (non-nil) root under which the iterator is a cursor *)
 Definition good (r : node) : Prop :=
-  wf_shape r /\ ne_entries r /\ bst r /\ (maxheight r <= S F)%nat.
+  wf_shape r /\ ne_entries r /\ bst r.
 
-Lemma F_eq : F = 64%nat. Proof. reflexivity. Qed.
+Lemma fuel_root : forall r, (maxheight r <= S (fuel_of r))%nat.
+Proof. intros r. unfold fuel_of. lia. Qed.
 
 Lemma first_key_cons : forall n x rest, entries n = x :: rest -> first_key n = Some (fst x).
 Proof. intros n [k v] rest H. unfold first_key. rewrite H. reflexivity. Qed.
@@ -577,9 +579,9 @@ Theorem bt_inext_begin : forall r, good r ->
   exists q k n' e', inext cmp (Some r) IBegin = IBetween q k /\ at_entry r q k n' e' /\
                     (lo r q + erank n' e' = 0)%nat.
 Proof.
-  intros r (Hwf & Hne & Hb & Hh).
-  destruct (leftmost_spec F r Hh Hwf Hne) as (n' & x & rest & H1 & H2 & H3 & H4).
-  exists (leftmost F r), (fst x), n', 0%nat. cbn [inext]. rewrite H1, (first_key_cons _ _ _ H3).
+  intros r (Hwf & Hne & Hb).
+  destruct (leftmost_spec (fuel_of r) r (fuel_root r) Hwf Hne) as (n' & x & rest & H1 & H2 & H3 & H4).
+  exists (leftmost (fuel_of r) r), (fst x), n', 0%nat. cbn [inext]. rewrite H1, (first_key_cons _ _ _ H3).
   split; [reflexivity|]. split.
   - split; [exact H1|]. exists (snd x). rewrite H3. destruct x; reflexivity.
   - rewrite H4, (erank_leaf _ _ H2). reflexivity.
@@ -589,9 +591,9 @@ Theorem bt_iprev_end : forall r, good r ->
   exists q k n' e', iprev cmp (Some r) IEnd = IBetween q k /\ at_entry r q k n' e' /\
                     S (lo r q + erank n' e') = count r.
 Proof.
-  intros r (Hwf & Hne & Hb & Hh).
-  destruct (rightmost_spec F r Hh Hwf Hne) as (n' & x & H1 & H2 & H3 & H4).
-  exists (rightmost F r), (fst x), n', (length (entries n') - 1)%nat. cbn [iprev].
+  intros r (Hwf & Hne & Hb).
+  destruct (rightmost_spec (fuel_of r) r (fuel_root r) Hwf Hne) as (n' & x & H1 & H2 & H3 & H4).
+  exists (rightmost (fuel_of r) r), (fst x), n', (length (entries n') - 1)%nat. cbn [iprev].
   rewrite H1, (last_key_nth _ _ H3).
   split; [reflexivity|]. split.
   - split; [exact H1|]. exists (snd x). rewrite H3. destruct x; reflexivity.
@@ -606,7 +608,7 @@ Theorem bt_inext_spec : forall r path key n e, good r -> at_entry r path key n e
   | IBegin => False
   end.
 Proof.
-  intros r path key n e (Hwf & Hne & Hb & Hh) [Hn [v He]].
+  intros r path key n e (Hwf & Hne & Hb) [Hn [v He]].
   destruct (node_at_inv cmp Hswo path r n Hwf Hne Hb Hn) as (Hwn & Hnn & Hbn & Hhn).
   cbn [inext]. rewrite Hn. destruct n as [es cs]. cbn [entries children] in *.
   assert (Hes : ksorted cmp es) by (eapply bst_entries; eassumption).
@@ -616,9 +618,9 @@ Proof.
   destruct (nth_error cs (S e)) as [c|] eqn:Hc.
   - (* internal node: leftmost leaf of the child after the entry *)
     pose proof (mh_child es cs _ c Hc) as Hm.
-    destruct (leftmost_spec F c) as (n' & x & rest & H1 & H2 & H3 & H4);
-      [lia|exact (wf_child _ _ _ _ Hwn Hc)|exact (ne_child _ _ _ _ Hnn Hc)|].
-    assert (Hp : node_at r (path ++ S e :: leftmost F c) = Some n').
+    destruct (leftmost_spec (fuel_of r) c) as (n' & x & rest & H1 & H2 & H3 & H4);
+      [unfold fuel_of; lia|exact (wf_child _ _ _ _ Hwn Hc)|exact (ne_child _ _ _ _ Hnn Hc)|].
+    assert (Hp : node_at r (path ++ S e :: leftmost (fuel_of r) c) = Some n').
     { rewrite (node_at_app _ _ _ _ Hn). cbn [node_at children]. rewrite Hc. exact H1. }
     rewrite Hp, (first_key_cons _ _ _ H3).
     exists n', 0%nat. split.
@@ -639,11 +641,12 @@ Proof.
       apply nth_error_None in Hk.
       pose proof (maxheight_pos (N es [])) as Hpos.
       assert (Hin : In (key, v) (inorder (N es []))) by (cbn; eapply nth_error_In; exact He).
-      pose proof (climb_next_spec cmp Hswo path r (N es []) F key v Hwf Hb Hn Hin) as Hcl.
+      pose proof (climb_next_spec cmp Hswo path r (N es []) (fuel_of r) key v Hwf Hb Hn Hin) as Hcl.
+      assert (Hfl : (length path <= fuel_of r)%nat) by (unfold fuel_of; lia).
       rewrite erank_leaf by reflexivity.
       assert (Hcount : count (N es []) = S e) by (cbn; lia).
       rewrite Hcount in Hcl.
-      destruct (climb_next cmp r F path key) as [| |q k].
+      destruct (climb_next cmp r (fuel_of r) path key) as [| |q k].
       * apply Hcl. lia.
       * rewrite <- Hcl by lia. lia.
       * destruct Hcl as (n' & e' & Ha & Hr); [lia|]. exists n', e'. split; [exact Ha|lia].
@@ -656,7 +659,7 @@ Theorem bt_iprev_spec : forall r path key n e, good r -> at_entry r path key n e
   | IEnd => False
   end.
 Proof.
-  intros r path key n e (Hwf & Hne & Hb & Hh) [Hn [v He]].
+  intros r path key n e (Hwf & Hne & Hb) [Hn [v He]].
   destruct (node_at_inv cmp Hswo path r n Hwf Hne Hb Hn) as (Hwn & Hnn & Hbn & Hhn).
   cbn [iprev]. rewrite Hn. destruct n as [es cs]. cbn [entries children] in *.
   assert (Hes : ksorted cmp es) by (eapply bst_entries; eassumption).
@@ -665,9 +668,9 @@ Proof.
   destruct (nth_error cs e) as [c|] eqn:Hc.
   - (* internal node: rightmost leaf of the child before the entry *)
     pose proof (mh_child es cs _ c Hc) as Hm.
-    destruct (rightmost_spec F c) as (n' & x & H1 & H2 & H3 & H4);
-      [lia|exact (wf_child _ _ _ _ Hwn Hc)|exact (ne_child _ _ _ _ Hnn Hc)|].
-    assert (Hp : node_at r (path ++ e :: rightmost F c) = Some n').
+    destruct (rightmost_spec (fuel_of r) c) as (n' & x & H1 & H2 & H3 & H4);
+      [unfold fuel_of; lia|exact (wf_child _ _ _ _ Hwn Hc)|exact (ne_child _ _ _ _ Hnn Hc)|].
+    assert (Hp : node_at r (path ++ e :: rightmost (fuel_of r) c) = Some n').
     { rewrite (node_at_app _ _ _ _ Hn). cbn [node_at children]. rewrite Hc. exact H1. }
     rewrite Hp, (last_key_nth _ _ H3).
     exists n', (length (entries n') - 1)%nat. split.
@@ -688,9 +691,10 @@ Proof.
     + apply Nat.leb_gt in E1. assert (e = 0)%nat as -> by lia.
       pose proof (maxheight_pos (N es [])) as Hpos.
       assert (Hin : In (key, v) (inorder (N es []))) by (cbn; eapply nth_error_In; exact He).
-      pose proof (climb_prev_spec cmp Hswo path r (N es []) F key v Hwf Hb Hn Hin) as Hcl.
+      pose proof (climb_prev_spec cmp Hswo path r (N es []) (fuel_of r) key v Hwf Hb Hn Hin) as Hcl.
+      assert (Hfl : (length path <= fuel_of r)%nat) by (unfold fuel_of; lia).
       rewrite erank_leaf by reflexivity.
-      destruct (climb_prev cmp r F path key) as [| |q k].
+      destruct (climb_prev cmp r (fuel_of r) path key) as [| |q k].
       * rewrite Hcl by lia. reflexivity.
       * apply Hcl. lia.
       * destruct Hcl as (n' & e' & Ha & Hr); [lia|]. exists n', e'. split; [exact Ha|lia].
@@ -737,7 +741,7 @@ Lemma at_entry_facts : forall rt path key n e, good cmp rt -> at_entry rt path k
   (lo rt path + erank n e < length (inorder rt))%nat /\
   ientry (Some rt) (IBetween path key) = nth_error (inorder rt) (lo rt path + erank n e).
 Proof.
-  intros rt path key n e (Hwf & Hne & Hb & Hh) [Hn [v He]].
+  intros rt path key n e (Hwf & Hne & Hb) [Hn [v He]].
   destruct (node_at_inv cmp Hswo path rt n Hwf Hne Hb Hn) as (Hwn & Hnn & Hbn & Hhn).
   assert (Hes : ksorted cmp (entries n)) by (destruct n as [es cs]; eapply bst_entries; eassumption).
   pose proof (search_entry cmp Hswo _ e (key, v) Hes He) as Hs. cbn [fst] in Hs.
@@ -897,85 +901,24 @@ End BTSim.
 (* ====================================================================================== *)
 (* The B-tree invariant of Proofs/BTreeInv.v ([btree_inv m r]: all leaves at one depth, entry-count
    bounds, root non-empty) and sortedness ([sorted_root cmp r] = the in-order sequence is strictly
-   ascending, hence duplicate-free, for cmp) give the first three parts of [good].  The fourth part,
-   [maxheight r <= S F] (= 65), is about the constant descent fuel F = 64 of Model/BTreeIter.v
-   ([leftmost F] / [rightmost F] / [climb_* .. F]): the model's iterator stops descending after 64
-   levels where the Go loop `for ; len(node.Children) > 0; ` runs on.  A tree of height h holds at
-   least 2^h - 1 entries ([bal_cnt_count] below), so the bound holds for every tree with fewer than
-   2^65 entries ([btree_inv_maxheight]); it cannot be discharged unconditionally for "all op
-   lists", since the op list alphabet does not bound the length of a history. *)
-Section HeightBound.
-Local Open Scope Z_scope.
-Variable m : nat.
-Hypothesis Hm : (3 <= m)%nat.
-
-Lemma csum_lower : forall cs X,
-  Forall (fun c => X <= Z.of_nat (count c) + 1) cs ->
-  Z.of_nat (length cs) * X <= Z.of_nat (csum cs) + Z.of_nat (length cs).
+   ascending, hence duplicate-free, for cmp) are all of [good]; both hold in every reachable state
+   (MachineMaps.run_sim). *)
+Lemma cnt_ne : forall m, (3 <= m)%nat -> forall n lo, (1 <= lo)%nat -> BTreeInv.cnt m lo n -> ne_entries n.
 Proof.
-  induction cs as [|c cs IH]; intros X Hf; [cbn; lia|].
-  inversion Hf as [|c' cs' Hc Hcs]; subst. specialize (IH X Hcs).
-  change (csum (c :: cs)) with (count c + csum cs)%nat. cbn [length].
-  rewrite Nat2Z.inj_succ, Nat2Z.inj_add. lia.
-Qed.
-
-Lemma bal_cnt_count : forall h n lo, (1 <= lo)%nat -> bal h n -> BTreeInv.cnt m lo n ->
-  2 ^ Z.of_nat h <= Z.of_nat (count n) + 1.
-Proof.
-  induction h as [|h IH]; intros [es cs] lo Hlo Hb Hc; [contradiction|].
-  apply BTreeInv.cnt_inv in Hc. destruct Hc as [Hlen Hf].
-  destruct h as [|h'].
-  - apply bal_1 in Hb. subst cs. cbn [count map list_sum]. change (2 ^ Z.of_nat 1) with 2. lia.
-  - apply bal_SS in Hb. destruct Hb as [Hl Hbs].
-    assert (Hall : Forall (fun c => 2 ^ Z.of_nat (S h') <= Z.of_nat (count c) + 1) cs).
-    { rewrite Forall_forall in *. intros c Hin.
-      apply (IH c (minEntries m)); [apply BTreeInv.minE_pos; exact Hm|apply Hbs; exact Hin|apply Hf; exact Hin]. }
-    pose proof (csum_lower cs _ Hall) as Hsum.
-    cbn [count]. fold (csum cs).
-    rewrite (Nat2Z.inj_succ (S h')), Z.pow_succ_r by lia.
-    assert (Hpos : 0 < 2 ^ Z.of_nat (S h')) by (apply Z.pow_pos_nonneg; lia).
-    rewrite Hl in Hsum. rewrite Nat2Z.inj_succ in Hsum. rewrite Nat2Z.inj_add. nia.
-Qed.
-
-Theorem btree_inv_maxheight : forall n, BTreeInv.btree_inv m (Some n) ->
-  Z.of_nat (count n) < 2 ^ 65 -> (maxheight n <= 65)%nat.
-Proof.
-  intros n (h & Hb & Hc) Hlt. rewrite (bal_maxheight _ _ Hb).
-  pose proof (bal_cnt_count h n 1%nat (le_n 1) Hb Hc) as Hle.
-  destruct (le_lt_dec h 65) as [Hok|Hbig]; [exact Hok|exfalso].
-  assert (H66 : 2 ^ 66 <= 2 ^ Z.of_nat h) by (apply Z.pow_le_mono_r; lia).
-  assert (H65 : 2 ^ 65 < 2 ^ 66) by (apply Z.pow_lt_mono_r; lia).
-  lia.
-Qed.
-
-Lemma cnt_ne : forall n lo, (1 <= lo)%nat -> BTreeInv.cnt m lo n -> ne_entries n.
-Proof.
-  intros n. induction n as [es cs IH] using BTreeInd.node_ind2. intros lo Hlo Hc.
+  intros m Hm n. induction n as [es cs IH] using BTreeInd.node_ind2. intros lo Hlo Hc.
   apply BTreeInv.cnt_inv in Hc. destruct Hc as [Hlen Hf]. constructor.
   - intros E. subst es. cbn [length] in Hlen. lia.
   - rewrite Forall_forall in *. intros c Hc.
     apply (IH c Hc (minEntries m)); [apply BTreeInv.minE_pos; exact Hm | apply Hf; exact Hc].
 Qed.
-End HeightBound.
-
-(* the iterator's descent fuel suffices for the tree *)
-Definition bt_depth_ok (r : option node) : Prop :=
-  match r with Some n => (maxheight n <= 65)%nat | None => True end.
 
 Theorem bt_good_of_inv : forall m cmp r, (3 <= m)%nat ->
-  BTreeInv.btree_inv m r -> BTreeInv.sorted_root cmp r -> bt_depth_ok r -> bt_good cmp r.
+  BTreeInv.btree_inv m r -> BTreeInv.sorted_root cmp r -> bt_good cmp r.
 Proof.
-  intros m cmp [n|] Hm Hinv Hs Hd; [|exact I]. cbn [bt_good].
+  intros m cmp [n|] Hm Hinv Hs; [|exact I]. cbn [bt_good].
   split; [eapply BTreeInv.btree_inv_wf; exact Hinv|]. split.
   - destruct Hinv as (h & _ & Hc). exact (cnt_ne m Hm n 1%nat (le_n 1) Hc).
-  - split; [exact Hs|]. exact Hd.
-Qed.
-
-Theorem bt_depth_ok_of_size : forall m r, (3 <= m)%nat -> BTreeInv.btree_inv m r ->
-  (Z.of_nat (length (bt_inorder r)) < 2 ^ 65)%Z -> bt_depth_ok r.
-Proof.
-  intros m [n|] Hm Hinv Hlt; [|exact I]. cbn [bt_depth_ok bt_inorder] in *.
-  apply (btree_inv_maxheight m Hm n Hinv). rewrite count_inorder_gen. exact Hlt.
+  - exact Hs.
 Qed.
 
 (* ---------- machine level ---------- *)
@@ -1006,4 +949,3 @@ Print Assumptions run_iter_bt.
 Print Assumptions each_of_bt.
 Print Assumptions each_back_bt.
 Print Assumptions bt_good_of_inv.
-Print Assumptions bt_depth_ok_of_size.
